@@ -61,3 +61,7 @@ func (p *VerifProgress) Reset(index uint64, term uint64) {
 	p.np.appliedt = term
 	p.np.snapi = index
 }
+
+// VerifWaitRegistered reports whether a request id still has an entry in the pending
+// request table (the waiter registry the apply path triggers).
+func (nd *KVNode) VerifWaitRegistered(id uint64) bool { return nd.w.IsRegistered(id) }
